@@ -3,6 +3,7 @@ package mutating
 // C08 — no unsupervised release: admission holds back every relevant change and nothing else (DESIGN.md §6 C08).
 
 import (
+	"k8s.io/apimachinery/pkg/apis/meta/v1/unstructured"
 	"math"
 
 	kruiseappsv1alpha1 "github.com/openkruise/kruise-api/apps/v1alpha1"
@@ -120,6 +121,29 @@ func VerifC08_FetchMatchedRollout() {
 		verifrt.Assert(got == nil, "C08.lookup.noneWhenNoActiveRolloutMatches")
 	} else {
 		verifrt.Assert(got != nil && got.Name == rs.activeMatch.Name, "C08.lookup.findsTheActiveMatchingRollout")
+	}
+}
+
+// VerifC08_UnifiedFetchMatchedRollout: the look-up of the StatefulSet-like handler: the active Rollout that references
+// the workload is found whichever served API version of the workload's group its workloadRef is written in (a Rollout
+// may say apps.kruise.io/v1alpha1 while the update arrives as v1beta1), and nothing else is.
+func VerifC08_UnifiedFetchMatchedRollout() {
+	rs := c08MakeRolloutsN("apps.kruise.io/v1beta1", "StatefulSet", 2)
+	for i := range rs.list {
+		ref := &rs.list[i].Spec.WorkloadRef
+		if ref.APIVersion == "apps.kruise.io/v1beta1" && verifrt.Bool("ro.refWrittenInOtherServedVersion") {
+			ref.APIVersion = "apps.kruise.io/v1alpha1"
+		}
+	}
+	h := &UnifiedWorkloadHandler{Client: rs.client()}
+	obj := &unstructured.Unstructured{Object: map[string]interface{}{"apiVersion": "apps.kruise.io/v1beta1", "kind": "StatefulSet",
+		"metadata": map[string]interface{}{"namespace": "ns", "name": "w"}}}
+	got, err := h.fetchMatchedRollout(obj)
+	verifrt.Assert(err == nil, "C08.unified.lookup.noError")
+	if rs.activeMatch == nil {
+		verifrt.Assert(got == nil, "C08.unified.lookup.noneWhenNoActiveRolloutMatches")
+	} else {
+		verifrt.Assert(got != nil && got.Name == rs.activeMatch.Name, "C08.unified.lookup.findsTheActiveMatchingRollout")
 	}
 }
 
